@@ -63,6 +63,19 @@ def run(ctx):
                 ctx.finding(rs, "portfolio-stack|%s" % ",".join(seq), "%s: %s" % (tag, detail), "pysmt/solvers/portfolio.py")
         ctx.floor(rs, 8)
 
+    if ctx.want("R8"):
+        rs = ctx.rule("R8", "text-interface members started with the per-member options a portfolio hands them (seed, model generation, "
+                            "solver options): the member finishes starting - it does not wait for a reply the process never sends - and answers")
+        for tag, kind, problems in sd.text_options_results(repo):
+            if kind != "ok":
+                rs.unrec("%s: %s" % (tag, problems))
+            elif problems:
+                ctx.finding(rs, "text-member-options|%s" % tag, "a text-interface member created with [%s]: %s - a portfolio whose members are "
+                            "configured so never gets an answer" % (tag, problems[0]), "pysmt/smtlib/solver.py")
+            else:
+                rs.ok({"member options": tag})
+        ctx.floor(rs, 6)
+
     if ctx.want("R5"):
         rs = ctx.rule("R5", "reply reads of a text-interface member terminate when the solver process ends")
         for ans, api, want, got in sd._verdict_job(None):
